@@ -200,6 +200,7 @@ def run_verus_unit(u, scratch, tier):
     for f in c['failed']:
         failed_fns.setdefault(f['fn'], []).append(f)
     seen = set()
+    matched_fail = set()
     for fb in c['fns']:
         name = fb['function'].split('::')[-1]
         full = fb['function']
@@ -209,17 +210,22 @@ def run_verus_unit(u, scratch, tier):
         short = re.sub(r'^[^:]*::', '', full)
         org = asm.fn_origin.get(name)
         fnref = '%s::%s' % org if org else 'lemma/spec in units/verus/%s.vu' % u.name
-        if fb['success'] and name not in failed_fns:
+        # Verus reports success per function; several functions of a unit may share their last path segment
+        # (three `parse` impls, two `seed` impls), so the diagnostics' fn *name* alone must not fail the others
+        if fb['success'] and not (name in failed_fns and len(set(x['function'] for x in c['fns'] if x['function'].split('::')[-1] == name)) == 1):
             outs.append(Outcome(u.name, '%s::%s' % (u.name, short), 'pass', backend='verus/z3', label='proved',
                                 time_s=(fb['time_ms'] or 0) / 1000.0, fn=fnref, attempt=attempt,
                                 detail={'mode': fb['mode'], 'rlimit': fb['rlimit']}))
         else:
-            errs = failed_fns.pop(name, [])
+            errs = failed_fns.get(name, [])
+            matched_fail.add(name)
             outs.append(Outcome(u.name, '%s::%s' % (u.name, short), 'fail', backend='verus/z3', label='proved', fn=fnref,
                                 attempt=attempt, time_s=(fb['time_ms'] or 0) / 1000.0,
                                 reason='; '.join('%s (assembled line %s)' % (e['kind'], e['line']) for e in errs[:4]) or 'verification failed',
                                 detail={'errors': errs, 'line_map': [asm.origin_of_line(e['line']) if e['line'] else None for e in errs]}))
     for name, errs in failed_fns.items():
+        if name in matched_fail:
+            continue
         outs.append(Outcome(u.name, '%s::%s' % (u.name, name), 'fail', backend='verus/z3', label='proved', attempt=attempt,
                             reason='; '.join('%s (assembled line %s)' % (e['kind'], e['line']) for e in errs[:4]),
                             detail={'errors': errs}))
